@@ -9,7 +9,7 @@ META = {'claimed': True,
                "begin with '/' (the documented request line; the spec canonicalises an empty path to '/'); for 253402300800 <= t <= gmtime_r's maximum all four functions fail "
                '(C19_far_future_rejected: date[9] too small); no theorem for t < 0 (the model follows glibc there and the run samples it); generic in the hash functions (any byte-valued '
                'sha256/hmac), so an edit of any layout breaks the proof. The order of the steps inside each function and the libc pieces are hand-modelled and bound by the correspondence run '
-               '(implementation vs extracted model vs extracted spec evaluated at the returned timestamp, time() interposed).',
+               '(implementation vs extracted model vs extracted spec evaluated at the returned timestamp, time() interposed; request bodies at a re-used address with other contents, every argument overwritten and freed before the results are read; the k-th allocation refused and the same request signed again - the signature after a failed call must still verify).',
  'level_note': 'Trusted: Coq kernel + vm_compute; the translator tools/extract/x_aws.py; Gallina models of asprintf(%s %d %%), gmtime_r and glibc strftime (%Y unpadded; returns 0 when the text does '
                "not fit), sampled against libc incl. years < 1000 and >= 10000; the transcription of the published SigV4 algorithm in Aws/SigV4Spec.v; SHA-256/HMAC correctness is C01's subject (the "
                'C19 theorems hold for any hash functions). Print Assumptions: closed under the global context.',
